@@ -166,7 +166,10 @@ def _random_case(r, maxlen):
         K = kind.upper()
         _, attrs, ref = classes[K]
         if r.random() < 0.04:
-            return ['new', kind + 'Q', [], []]                          # UnknownClass, no instance
+            bad = kind + 'Q'
+            while bad.upper() in classes:
+                bad += 'Q'
+            return ['new', bad, [], []]                                 # UnknownClass, no instance
         npos = r.choice([0, 0, 1, len(attrs), r.randint(0, len(attrs))])
         args = [_value(r, ty) for _, ty in attrs[:npos]]
         kws = []
@@ -223,7 +226,10 @@ def _random_case(r, maxlen):
             filt = []
             for a, t in r.sample(cattrs, r.randint(0, min(2, len(cattrs)))):
                 filt.append([respell(r, a), _value(r, t)])
-            ops.append(['sel', respell(r, kind) if r.random() < 0.95 else kind + 'Z', filt])
+            bad = kind + 'Z'
+            while bad.upper() in classes:
+                bad += 'Z'
+            ops.append(['sel', respell(r, kind) if r.random() < 0.95 else bad, filt])
         elif what < 0.90:
             j = pick_inst()
             if r.random() < 0.8:
